@@ -188,13 +188,20 @@ def run_group(group, repo=None, trace=False):
     cur = gb0
     if group.unwindset:
         ids = loop_ids(cur, log)
+        by_fn = {i["name"]: i for i in infos}
         sets = []
         for (fn, k), b in group.unwindset.items():
-            if (fn, k) not in ids:
-                res["reason"] = "unwindset: loop %s.%d not found (have %s)" % (fn, k, sorted(ids))
+            info = by_fn.get(fn)
+            if info is None or k not in info["cbmc_loop_index"]:
+                res["reason"] = "unwindset: no loop %d in unit %s" % (k, fn)
                 res["wall_s"] = time.time() - t0
                 return res
-            sets.append("%s:%d" % (ids[(fn, k)], b))
+            have = len([1 for (f, _) in ids if f == fn])
+            if have != info["n_loops"]:
+                res["reason"] = "unwindset: unit %s has %d textual loops but cbmc sees %d" % (fn, info["n_loops"], have)
+                res["wall_s"] = time.time() - t0
+                return res
+            sets.append("%s.%d:%d" % (fn, info["cbmc_loop_index"][k], b))
         rc, out, _ = _run(["goto-instrument", "--unwindset", ",".join(sets), "--unwinding-assertions", cur, gb1],
                           300, 8, log)
         if rc != 0:
